@@ -117,6 +117,11 @@ func (fr *frame) call(c *ssa.Call) Val {
 		fr.in.OnCall(c, callee, args, fr)
 		fr.in.curFr = fr
 	}
+	if callee != nil && fr.in.CallModel != nil {
+		if v, ok := fr.in.CallModel(callee, args, fr); ok {
+			return v
+		}
+	}
 	if callee == nil {
 		// a dynamic call the evaluator cannot resolve may write through its
 		// arguments - except an interface method declared in the module itself:
